@@ -1,4 +1,5 @@
 import Bifrost.Model.Links
+import Bifrost.Model.LinksConc
 import Bifrost.Lemmas.Links
 import Bifrost.Props.C06
 /-!
@@ -57,5 +58,29 @@ theorem never_yields_self (ops : List Op) (h : WF ops) (src dst : Nat) :
 
 example : resolveEstablishLink (run [.start 1, .est ⟨1, 7, 2⟩, .est ⟨2, 8, 3⟩, .est ⟨3, 9, 1⟩]) 0 2
     = [⟨1, 7, 2⟩] := by decide
+
+/-! ### Several transports (local identities) on one bus -/
+
+/-- With any number of controllers on one bus (histories `hs`, one per controller), a request
+for a link from `src` to `dst` only ever yields links whose remote peer is `dst`, that are live
+in the controller that yielded them, that are not self links of that controller - and, when
+`src` is given, only links of the transport whose local peer is `src`. -/
+theorem resolve_bus_only_between (hs : List (List Op)) (hwf : ∀ ops ∈ hs, WF ops)
+    (src dst lp : Nat) (x : Link) (hx : (lp, x) ∈ resolveBus (hs.map run) src dst) :
+    x.remote = dst ∧ (src ≠ 0 → lp = src) ∧
+    ∃ ops ∈ hs, lp = (run ops).localPeer ∧ x ∈ (specRun ops).live ∧ x.remote ≠ lp := by
+  simp only [resolveBus, List.mem_flatMap, List.mem_map] at hx
+  obtain ⟨s, ⟨ops, hops, rfl⟩, y, hy, he⟩ := hx
+  simp only [Prod.mk.injEq] at he
+  obtain ⟨rfl, rfl⟩ := he
+  obtain ⟨h1, h2, h3, h4⟩ := resolve_only_between ops (hwf ops hops) src dst _ hy
+  exact ⟨h1, fun h0 => (h2 h0).symm, ops, hops, rfl, h3, h4⟩
+
+/-- Two transports S1 = 1 and S2 = 4 each hold a link to peer 2: a request from S1 yields only
+the link of the S1 transport, a request without source yields both. -/
+example : resolveBus [run [.start 1, .est ⟨1, 7, 2⟩], run [.start 4, .est ⟨11, 7, 2⟩]] 1 2
+      = [(1, ⟨1, 7, 2⟩)] ∧
+    resolveBus [run [.start 1, .est ⟨1, 7, 2⟩], run [.start 4, .est ⟨11, 7, 2⟩]] 0 2
+      = [(1, ⟨1, 7, 2⟩), (4, ⟨11, 7, 2⟩)] := by decide
 
 end Bifrost.Props.C04
